@@ -115,3 +115,25 @@ def _pipeline(spec, cfg, solve, out, stats):
     out["stage"] = "done"
     out["_pot"] = pot
     return out
+
+
+def pressure_start_dependence(spec, cfg, vw):
+    """Mechanism probe for divergences at the 'solve' stage: evaluate the real
+    EOM.wallPressure(vw) on one manager from two different initial wall thicknesses.
+    Returns (P1, P2, relative difference, rtol).  If the two differ by much more than the
+    iteration's own relative tolerance, the iteration stops on a small *successive*
+    difference far from its fixed point, so the pressure (and everything derived from its
+    sign) depends on the starting parameters."""
+    import WallGo
+    b = MG.build(spec, cfg)
+    m, Tn = b["manager"], b["Tn"]
+    solver = m.setupWallSolver(MG.wall_settings(cfg))
+    eom = solver.eom
+    nf = b["pot"].fieldCount
+    out = []
+    for L0 in (cfg.get("wallThicknessGuess", 5.0), cfg.get("wallThicknessGuess", 5.0) / 2.5):
+        wp = WallGo.WallParams(widths=np.full(nf, L0 / Tn), offsets=np.zeros(nf))
+        out.append(float(eom.wallPressure(vw, wp)[0]))
+    rtol = m.config.configEOM.pressRelErrTol
+    rel = abs(out[0] - out[1]) / max(abs(out[0]), abs(out[1]), 1e-300)
+    return out[0], out[1], rel, rtol
